@@ -219,16 +219,11 @@ Theorem close_refuted :
     length (accepted s) = 4%nat /\ length (stored_items s) = 1%nat /\ length (queue s) = 3%nat /\
     ~ Permutation (accepted s) (stored_items s).
 Proof.
-  exists wit_labels.
-  destruct (brun Hreal thr_real (wit_cfg false) binit wit_labels) as [s|] eqn:E; [|vm_compute in E; discriminate].
-  exists s. split; [reflexivity|].
-  assert (Ea : map it_b (accepted s) = wit_batches) by (vm_compute in E; inversion E; subst; reflexivity).
-  assert (F : phase s = PClosed /\ clean s = true /\ dropped s = [] /\ length (accepted s) = 4%nat /\ length (stored_items s) = 1%nat /\ length (queue s) = 3%nat).
-  { vm_compute in E. inversion E; subst. cbn. repeat split. }
-  destruct F as [F1 [F2 [F3 [F4 [F5 F6]]]]].
-  split; [reflexivity|]. split; [exact F1|]. split; [exact F2|]. split; [apply wit_inputs; exact Ea|].
-  split; [exact F3|]. split; [exact F4|]. split; [exact F5|]. split; [exact F6|].
-  intros P. apply Permutation_length in P. lia.
+  exists wit_labels. eexists. split; [vm_compute; reflexivity|].
+  split; [reflexivity|]. split; [reflexivity|]. split; [reflexivity|].
+  split; [apply wit_inputs; vm_compute; reflexivity|].
+  split; [reflexivity|]. split; [reflexivity|]. split; [reflexivity|]. split; [reflexivity|].
+  intros P. apply Permutation_length in P. vm_compute in P. discriminate.
 Qed.
 
 (* the same schedule prefix under the corrected Close: the queue is drained, everything is stored *)
@@ -243,10 +238,7 @@ Example fixed_close_nonvacuous :
     forallb (fun l : label N batch => no_replay l && outcome_ok l) wit_labels_fixed = true /\
     phase s = PClosed /\ clean s = true /\ inputs_ok s /\ dropped s = [] /\ length (stored_items s) = 4%nat.
 Proof.
-  destruct (brun Hreal thr_real (wit_cfg true) binit wit_labels_fixed) as [s|] eqn:E; [|vm_compute in E; discriminate].
-  exists s. split; [reflexivity|].
-  assert (Ea : map it_b (accepted s) = wit_batches) by (vm_compute in E; inversion E; subst; reflexivity).
-  assert (F : phase s = PClosed /\ clean s = true /\ dropped s = [] /\ length (stored_items s) = 4%nat).
-  { vm_compute in E. inversion E; subst. cbn. repeat split. }
-  destruct F as [F1 [F2 [F3 F4]]]. split; [reflexivity|]. split; [exact F1|]. split; [exact F2|]. split; [apply wit_inputs; exact Ea|]. split; assumption.
+  eexists. split; [vm_compute; reflexivity|].
+  split; [reflexivity|]. split; [reflexivity|]. split; [reflexivity|].
+  split; [apply wit_inputs; vm_compute; reflexivity|]. split; reflexivity.
 Qed.
